@@ -2,9 +2,9 @@
   Property C03 — reductions.  Property theorems only.
   `Gen.normalizeAxisInt` is GENERATED from `_utils.normalize_axis`.
 -/
-import SparseV.Model.Reduce
+import SparseV.Lemmas.Reduce
 namespace SparseV.C03
-open SparseV
+open SparseV SparseV.COO
 
 /-- **normalize_axis_spec.** An axis number is accepted iff `-ndim ≤ axis < ndim` (NumPy's rule) and
 is then mapped to `axis mod ndim`; otherwise `ValueError` (NumPy's AxisError is a ValueError). -/
@@ -34,5 +34,206 @@ theorem reduce_rejects_when_inadmissible (op : RedOp) (x : COO Int) (axes : Opti
 /-- max, min are always admissible (idempotent); add and multiply are always admissible (super ufunc) -/
 theorem reduce_always_admissible (op : RedOp) (f : Int) : op.ap f f = f ∨ op.super?.isSome := by
   cases op <;> simp [RedOp.ap, RedOp.super?]
+
+/-- **groupRuns_spec.** On a list of (row, value) pairs whose rows are non-decreasing, `groupRuns op`
+(`_grouped_reduce` = `ufunc.reduceat` over the run starts, with `_calc_counts_invidx`) lists every
+distinct row exactly once, in increasing order, each with the LEFT fold of `op` over the row's values
+in storage order (`foldl1 op (rowVals l r)`) and the number of those values. -/
+theorem groupRuns_spec (op : Int → Int → Int) (l : List (Nat × Int)) (hs : (l.map (·.1)).Pairwise (· ≤ ·)) :
+    ((groupRuns op l).map (·.1)).Pairwise (· < ·) ∧
+    (∀ r, r ∈ (groupRuns op l).map (·.1) ↔ r ∈ l.map (·.1)) ∧
+    ∀ g ∈ groupRuns op l, g.2.1 = foldl1 op (rowVals l g.1) ∧ g.2.2 = (rowVals l g.1).length :=
+  groupRuns_spec_aux op l hs
+
+/-- **reduceCore_rowReduce.** `reduceCore` is literally: admissibility test; transpose the kept axes
+first and reshape to 2-D; the row reduction `rowReduce`; reshape back (and again for `keepdims`);
+0-d results become scalars.  (`rowReduce` is the model's own text, factored out by `rfl`.) -/
+theorem reduceCore_rowReduce (op : RedOp) (x : COO Int) (axes : Option (List Nat)) (keepdims : Bool) :
+    COO.reduceCore op x axes keepdims =
+      if op.ap x.fill x.fill ≠ x.fill ∧ op.super?.isNone then .error .value else
+      let nd := x.shape.length
+      let axes := match axes with | none => List.range nd | some a => a
+      let kept := (List.range nd).filter fun a => !axes.contains a
+      let a := (x.transposeCore (kept ++ axes)).reshapeCore
+        [prod (kept.map fun d => x.shape.getD d 0), prod (axes.map fun d => x.shape.getD d 0)]
+      let out := (rowReduce op a x.fill).reshapeCore (kept.map fun d => x.shape.getD d 0)
+      let out := if keepdims then
+          out.reshapeCore ((List.range nd).map fun d => if axes.contains d then 1 else x.shape.getD d 0)
+        else out
+      if out.shape.length = 0 then
+        .ok (.scalar (match out.entries with | e :: _ => e.2 | [] => out.fill))
+      else .ok (.arr out) := reduceCore_eq op x axes keepdims
+
+/-- **rowReduce_add_get** (the 2-D core of `sum`).  For a canonical `R × C` array (well-formed,
+strictly increasing linear locations) the row reduction with `add` — runs of equal row folded left to
+right, plus `fill * (C - count)` for the unstored cells, new fill `fill * C`, prune — yields a 1-D
+array of shape `[R]` whose element `i` is the sum over ALL `C` cells of row `i` (a row with no stored
+entry reads the new fill value `fill * C`, which is that sum).  Any `R`, `C` (0 included), any fill. -/
+theorem rowReduce_add_get (a : COO Int) (R C : Nat) (hshape : a.shape = [R, C]) (hwf : a.WF)
+    (hs : SortedLin a.shape a.entries) :
+    (rowReduce .add a a.fill).shape = [R] ∧ (rowReduce .add a a.fill).fill = a.fill * (C : Int) ∧
+    ∀ i, (rowReduce .add a a.fill).get [i] = ((List.range C).map fun c => a.get [i, c]).sum := by
+  have hwf' : ∀ e ∈ a.entries, InB e.1 [R, C] := fun e he => hshape ▸ hwf e he
+  have hs' : SortedLin [R, C] a.entries := hshape ▸ hs
+  rw [rowReduce_add_eq]
+  simp only [hshape, List.getD_cons_zero, List.getD_cons_succ, true_and]
+  intro i
+  simp only [COO.get]
+  rw [lookup_rowRuns _ _ (rowList_sorted a.entries R C hwf' hs'),
+    row_sum R C a.fill i a.entries hwf' (keys_nodup_of_sortedLin _ _ hs')]
+  have hle := rowCount_le a.entries R C hwf' hs' i
+  by_cases hi : i ∈ (rowList a.entries).map (·.1)
+  · rw [if_pos hi]
+    simp only [foldl1_add_eq_sum, Int.ofNat_sub hle, Int.mul_sub]
+    omega
+  · rw [if_neg hi, rowVals_eq_nil hi]
+    simp
+
+/-- **rowReduce_max_get** (the 2-D core of `max`, the idempotent path: `if count ≠ C then max v fill
+else v`, fill unchanged).  For `C ≥ 1`, element `i` of the result is the maximum of the `C` cells of
+row `i`: it bounds every cell and is attained by one. -/
+theorem rowReduce_max_get (a : COO Int) (R C : Nat) (hshape : a.shape = [R, C]) (hwf : a.WF)
+    (hs : SortedLin a.shape a.entries) (hC : 0 < C) :
+    (rowReduce .max a a.fill).shape = [R] ∧ (rowReduce .max a a.fill).fill = a.fill ∧
+    ∀ i, (∀ c, c < C → a.get [i, c] ≤ (rowReduce .max a a.fill).get [i]) ∧
+         ∃ c, c < C ∧ a.get [i, c] = (rowReduce .max a a.fill).get [i] :=
+  rowReduce_sel_get .max rfl (· ≤ ·)
+    (fun a b => by simp only [RedOp.ap]; omega) (fun a b => by simp only [RedOp.ap]; omega)
+    (fun a b => by simp only [RedOp.ap]; omega) (fun a b c h1 h2 => Int.le_trans h1 h2) Int.le_refl
+    a R C hshape hwf hs hC
+
+/-- **rowReduce_min_get**: likewise the minimum. -/
+theorem rowReduce_min_get (a : COO Int) (R C : Nat) (hshape : a.shape = [R, C]) (hwf : a.WF)
+    (hs : SortedLin a.shape a.entries) (hC : 0 < C) :
+    (rowReduce .min a a.fill).shape = [R] ∧ (rowReduce .min a a.fill).fill = a.fill ∧
+    ∀ i, (∀ c, c < C → (rowReduce .min a a.fill).get [i] ≤ a.get [i, c]) ∧
+         ∃ c, c < C ∧ a.get [i, c] = (rowReduce .min a a.fill).get [i] :=
+  rowReduce_sel_get .min rfl (· ≥ ·)
+    (fun a b => by simp only [RedOp.ap]; omega) (fun a b => by simp only [RedOp.ap]; omega)
+    (fun a b => by simp only [RedOp.ap]; omega) (fun a b c h1 h2 => Int.le_trans h2 h1) Int.le_refl
+    a R C hshape hwf hs hC
+
+/-! non-vacuity -/
+
+example : groupRuns (· + ·) [(0, 5), (0, 2), (2, 7)] = [(0, 7, 2), (2, 7, 1)] ∧
+    ([(0, 5), (0, 2), (2, 7)].map (·.1) : List Nat).Pairwise (· ≤ ·) := by decide
+
+def rA : COO Int := { shape := [3, 2], entries := [([0, 0], 5), ([0, 1], 2), ([2, 1], 7)], fill := 1 }
+
+/-- the hypotheses hold for `rA`, and the conclusion gives row sums 7, 2 (unstored row: 2·fill), 8 -/
+example : rA.WF ∧ SortedLin rA.shape rA.entries ∧
+    (rowReduce .add rA rA.fill).get [1] = 2 ∧ (rowReduce .add rA rA.fill).get [2] = 8 := by
+  have hs : SortedLin rA.shape rA.entries := by simp [SortedLin, lin, rA, ravel, prod]
+  have h := (rowReduce_add_get rA 3 2 rfl (by decide) hs).2.2
+  refine ⟨by decide, hs, ?_, ?_⟩
+  · rw [h 1]; decide
+  · rw [h 2]; decide
+
+example : ∃ c, c < 2 ∧ rA.get [2, c] = (rowReduce .max rA rA.fill).get [2] :=
+  ((rowReduce_max_get rA 3 2 rfl (by decide) (by simp [SortedLin, lin, rA, ravel, prod]) (by decide)).2.2 2).2
+
+/-- `axis=None` is "all axes" -/
+theorem reduceCore_none (op : RedOp) (x : COO Int) (kd : Bool) :
+    COO.reduceCore op x none kd = COO.reduceCore op x (some (List.range x.shape.length)) kd := rfl
+
+/-- **reduce_add_get** (`sum` over arbitrary axes, `keepdims=False`).  For a canonical `x` (well-formed,
+strictly increasing linear locations — what every COO constructor path establishes) and distinct
+in-range `axes` (what `reduce` has checked), `reduceCore .add x (some axes) false` succeeds; its
+result is the array `out` (the scalar `out.get []` when every axis is reduced) with the kept extents as
+shape, fill `x.fill * (number of reduced cells)`, and for every in-bounds kept-index `j`
+`out.get j = Σ_{r ∈ allIdx (reduced extents)} x.get (the index with kept coordinates j, reduced
+coordinates r)` (`reduce_src_spec` spells that index out).  Covers transpose, both reshapes, the row
+reduction, the fill correction, pruning and the scalar extraction, for any rank, any set of axes
+(none, some, all), empty extents included.
+`transpose_get` (proved on branch p08) is taken as a hypothesis argument. -/
+theorem reduce_add_get (x : COO Int) (axes : List Nat)
+    (transpose_get : ∀ (y : COO Int) (p : List Nat), p.Perm (List.range y.shape.length) → y.WF →
+      (keysOf y.entries).Nodup → ∀ j, InB j (gather y.shape p) →
+      (y.transposeCore p).get j = y.get (gather j (invPerm p)))
+    (hwf : x.WF) (hs : SortedLin x.shape x.entries) (hnd : axes.Nodup)
+    (hr : ∀ a ∈ axes, a < x.shape.length) :
+    ∃ out : COO Int,
+      COO.reduceCore .add x (some axes) false =
+        .ok (if (List.range x.shape.length).filter (fun a => !axes.contains a) = [] then .scalar (out.get [])
+             else .arr out) ∧
+      out.shape = gather x.shape ((List.range x.shape.length).filter fun a => !axes.contains a) ∧
+      out.fill = x.fill * (prod (gather x.shape axes) : Int) ∧
+      ∀ j, InB j (gather x.shape ((List.range x.shape.length).filter fun a => !axes.contains a)) →
+        out.get j = ((allIdx (gather x.shape axes)).map fun r =>
+          x.get (gather (j ++ r)
+            (invPerm (((List.range x.shape.length).filter fun a => !axes.contains a) ++ axes)))).sum := by
+  obtain ⟨A, out, hAs, hAwf, hAsort, hAf, hAget, hred, hOs, hOf, hOget⟩ :=
+    reduceCore_lift .add x axes transpose_get (by simp [RedOp.super?]) hwf hs hnd hr _ rfl
+  obtain ⟨_, hRf, hRget⟩ := rowReduce_add_get A _ _ hAs hAwf hAsort
+  refine ⟨out, hred, hOs, by rw [hOf, hRf, hAf], fun j hj => ?_⟩
+  rw [hOget j hj, hRget, allIdx_eq_map_unravel, List.map_map]
+  congr 1
+  apply List.map_congr_left
+  intro c hc
+  simp only [Function.comp]
+  exact hAget j c hj (List.mem_range.mp hc)
+
+/-- **reduce_max_get** (`max` over arbitrary axes, `keepdims=False`; idempotent path).  Same hypotheses
+as `reduce_add_get`, and no reduced extent is 0 (`0 < prod reduced extents`; NumPy raises there, and
+the code's behaviour on that input is the registered finding F-reduce-empty-axis).  The result has the
+kept extents as shape, the fill value unchanged, and element `j` is the maximum over all
+reduced-index combinations `r`: it bounds every `x.get (kept j, reduced r)` and is attained. -/
+theorem reduce_max_get (x : COO Int) (axes : List Nat)
+    (transpose_get : ∀ (y : COO Int) (p : List Nat), p.Perm (List.range y.shape.length) → y.WF →
+      (keysOf y.entries).Nodup → ∀ j, InB j (gather y.shape p) →
+      (y.transposeCore p).get j = y.get (gather j (invPerm p)))
+    (hwf : x.WF) (hs : SortedLin x.shape x.entries) (hnd : axes.Nodup)
+    (hr : ∀ a ∈ axes, a < x.shape.length) (hpos : 0 < prod (gather x.shape axes)) :
+    ∃ out : COO Int,
+      COO.reduceCore .max x (some axes) false =
+        .ok (if (List.range x.shape.length).filter (fun a => !axes.contains a) = [] then .scalar (out.get [])
+             else .arr out) ∧
+      out.shape = gather x.shape ((List.range x.shape.length).filter fun a => !axes.contains a) ∧
+      out.fill = x.fill ∧
+      ∀ j, InB j (gather x.shape ((List.range x.shape.length).filter fun a => !axes.contains a)) →
+        (∀ r ∈ allIdx (gather x.shape axes), x.get (gather (j ++ r)
+            (invPerm (((List.range x.shape.length).filter fun a => !axes.contains a) ++ axes))) ≤ out.get j) ∧
+        ∃ r ∈ allIdx (gather x.shape axes), x.get (gather (j ++ r)
+            (invPerm (((List.range x.shape.length).filter fun a => !axes.contains a) ++ axes))) = out.get j :=
+  reduceCore_sel_get .max rfl (· ≤ ·)
+    (fun a b => by simp only [RedOp.ap]; omega) (fun a b => by simp only [RedOp.ap]; omega)
+    (fun a b => by simp only [RedOp.ap]; omega) (fun a b c h1 h2 => Int.le_trans h1 h2) Int.le_refl
+    (fun a => by simp only [RedOp.ap]; omega) x axes transpose_get hwf hs hnd hr hpos
+
+/-- **reduce_min_get**: likewise the minimum. -/
+theorem reduce_min_get (x : COO Int) (axes : List Nat)
+    (transpose_get : ∀ (y : COO Int) (p : List Nat), p.Perm (List.range y.shape.length) → y.WF →
+      (keysOf y.entries).Nodup → ∀ j, InB j (gather y.shape p) →
+      (y.transposeCore p).get j = y.get (gather j (invPerm p)))
+    (hwf : x.WF) (hs : SortedLin x.shape x.entries) (hnd : axes.Nodup)
+    (hr : ∀ a ∈ axes, a < x.shape.length) (hpos : 0 < prod (gather x.shape axes)) :
+    ∃ out : COO Int,
+      COO.reduceCore .min x (some axes) false =
+        .ok (if (List.range x.shape.length).filter (fun a => !axes.contains a) = [] then .scalar (out.get [])
+             else .arr out) ∧
+      out.shape = gather x.shape ((List.range x.shape.length).filter fun a => !axes.contains a) ∧
+      out.fill = x.fill ∧
+      ∀ j, InB j (gather x.shape ((List.range x.shape.length).filter fun a => !axes.contains a)) →
+        (∀ r ∈ allIdx (gather x.shape axes), out.get j ≤ x.get (gather (j ++ r)
+            (invPerm (((List.range x.shape.length).filter fun a => !axes.contains a) ++ axes)))) ∧
+        ∃ r ∈ allIdx (gather x.shape axes), x.get (gather (j ++ r)
+            (invPerm (((List.range x.shape.length).filter fun a => !axes.contains a) ++ axes))) = out.get j :=
+  reduceCore_sel_get .min rfl (· ≥ ·)
+    (fun a b => by simp only [RedOp.ap]; omega) (fun a b => by simp only [RedOp.ap]; omega)
+    (fun a b => by simp only [RedOp.ap]; omega) (fun a b c h1 h2 => Int.le_trans h2 h1) Int.le_refl
+    (fun a => by simp only [RedOp.ap]; omega) x axes transpose_get hwf hs hnd hr hpos
+
+/-- the operand index read by `reduce_add_get`: for a permutation `p = kept ++ axes` of the axes,
+`gather (j ++ r) (invPerm p)` has component `(j ++ r)[m]` at axis `p[m]` — kept coordinates from
+`j`, reduced coordinates from `r` -/
+theorem reduce_src_spec (p : List Nat) (hnd : p.Nodup) (hlt : ∀ a ∈ p, a < p.length) (v : List Nat)
+    (m : Nat) (hm : m < p.length) : (gather v (invPerm p)).getD (p[m]) 0 = v.getD m 0 :=
+  gather_invPerm_getD p hnd hlt v m hm
+
+/-- non-vacuity of the hypotheses of `reduce_add_get` (other than the imported `transpose_get`), and
+the model's answer on the same array: row sums 7, 2 (= new fill 2·1, pruned), 8 -/
+example : rA.WF ∧ SortedLin rA.shape rA.entries ∧ [1].Nodup ∧ (∀ a ∈ [1], a < rA.shape.length) ∧
+    COO.reduceCore .add rA (some [1]) false = .ok (.arr ⟨[3], [([0], 7), ([2], 8)], 2⟩) :=
+  ⟨by decide, by simp [SortedLin, lin, rA, ravel, prod], by decide, by decide, by rfl⟩
 
 end SparseV.C03
